@@ -479,6 +479,26 @@ def rule_helpers(rep: Report, repo: Repo, sections=None, nonhermitian: bool = Tr
         rep.check(ok, R, "second_quantization::apply_mask_to_operator an empty mask entry selects nothing (keep) / everything (discard); otherwise filter_terms(mask terms, keep)",
                   str({k: [tuple(x[:90] for x in t) for t in v] for k, v in table.items()}), repo.loc("second_quantization", f))
         ft = repo.find("number_ordered_form::NumberOrderedForm::filter_terms", R)
+        # a list split into two parts by `not any(p ...)` and `all(p ...)` loses the elements for which p holds for some members only
+        splits = {}
+        for c_ in ast.walk(ft):
+            if isinstance(c_, (ast.ListComp, ast.SetComp, ast.GeneratorExp)) and len(c_.generators) == 1 and len(c_.generators[0].ifs) == 1 \
+                    and isinstance(c_.generators[0].iter, ast.Name):
+                t_ = c_.generators[0].ifs[0]
+                neg = False
+                while isinstance(t_, ast.UnaryOp) and isinstance(t_.op, ast.Not):
+                    t_, neg = t_.operand, not neg
+                if isinstance(t_, ast.Call) and call_name(t_) in ("any", "all") and len(t_.args) == 1 and isinstance(t_.args[0], (ast.GeneratorExp, ast.ListComp)):
+                    from .resolve import resolved as _rs11
+                    inner_txt = norm(_rs11(ast.GeneratorExp(elt=t_.args[0].elt, generators=t_.args[0].generators), {c_.generators[0].target.id: ast.Name(id="_ELT_", ctx=ast.Load())}
+                                            if isinstance(c_.generators[0].target, ast.Name) else {}))
+                    splits.setdefault((c_.generators[0].iter.id, inner_txt), []).append((call_name(t_), neg, c_))
+        for (src_, _g), parts_ in splits.items():
+            kinds_ = {(k_, n_) for k_, n_, _c in parts_}
+            if kinds_ == {("any", True), ("all", False)}:
+                rep.fail(R, f"number_ordered_form::NumberOrderedForm.filter_terms splits `{src_}` into `not any(...)` and `all(...)`",
+                         "an element for which the predicate holds for some of its entries only (a condition mixing fixed and symbolic powers) is in "
+                         "neither part and is ignored: the terms it selects are neither kept nor discarded as asked", repo.loc("number_ordered_form", parts_[0][2]))
         comps = [n for n in ast.walk(ft) if isinstance(n, (ast.GeneratorExp, ast.ListComp)) and n.generators[0].ifs
                  and norm(n.generators[0].iter) in ("self.args[1]", "self.terms.items()")]
         if len(comps) == 1 and len(comps[0].generators[0].ifs) == 1 and isinstance(comps[0].generators[0].target, ast.Tuple):
